@@ -745,6 +745,15 @@ func (v *FV) exprEnv(fr *Frame, st *State, what string) *ExprEnv {
 	vars := map[string]TV{}
 	for k, x := range fr.params {
 		vars[k] = x
+		vars[k+"0"] = x // entry value of a parameter (parameters are assignable in Go)
+	}
+	if strings.HasPrefix(what, "loop ") {
+		// inside the body a plain name means the current value of the variable
+		for k, x := range st.env {
+			if _, isParam := fr.params[k]; isParam {
+				vars[k] = x
+			}
+		}
 	}
 	env := &ExprEnv{v: v, vars: vars, addr: st.addr, snap: st.snap, old: fr.oldSnap, reach: st.reach, what: what}
 	if fr.fn.Pkg != nil {
